@@ -24,6 +24,24 @@ class C18(StrCheck):
     def gen(self, rng, tier):
         for h in directed_failing(rng):
             yield 'str 4 ' + ';'.join(h)
+        # long ill-formed inputs (1025 .. 3000 units: beyond any on-stack staging area of a conversion): the failure path
+        # of a long conversion must release whatever it allocated (live blocks are counted at the end of each case)
+        for n16 in (1025, 1500, 3000):
+            for where in ('end', 'mid'):
+                units = ['0061'] * n16
+                units[n16 - 1 if where == 'end' else n16 // 2] = 'd800'
+                u16 = ''.join(units)
+                u32 = ''.join(('00000061' if i != (n16 - 1 if where == 'end' else n16 // 2) else '00110000') for i in range(n16))
+                u8 = '61' * (n16 - 1) + 'c3' if where == 'end' else '61' * (n16 // 2) + 'ff' + '61' * (n16 // 2)
+                tmp = hx(b'\0' * (3 * n16))
+                for tgt in (3, 40):
+                    ops = ['new,0,' + hx(rstr(rng, tgt)), 'new,1,' + hx(rstr(rng, 20))]
+                    for kind, u in (('set16fail', u16), ('from16fail', u16), ('set32fail', u32)):
+                        ops.append('%s,0,%s,M=throw:unicode_error:%s' % (kind, u, tmp))
+                    for kind in ('setfail', 'setmfail', 'ctorbuffail', 'ctorfail'):
+                        ops.append('%s,0,%s,M=throw:unicode_error:%s' % (kind, u8, u8))
+                    ops += ['reads,0', 'reads,1', 'del,0', 'del,1']
+                    yield 'str 4 ' + ';'.join(ops)
         n = 400 if tier == 'quick' else 48000
         for _ in range(n):
             yield 'str 4 ' + ';'.join(failing_history(rng, rng.choice([8, 12, 16])))
